@@ -1243,11 +1243,33 @@ class Interp:
                             pass
                     if basev.closed:
                         raise _PyRaise("AttributeError")
+                    nb_ = basev.attrs.get("channel_nbins")
+                    if isinstance(nb_, dict) and isinstance(basev.attrs.get("channels"), list) and e.attr in ("nmaindata", "channel_slices"):
+                        # a stand-in for the channel summary of a configuration (channels in their order, bins per channel):
+                        # the total and the slices are what that summary defines them to be (C12.R8 / C01.R13 decide the real one)
+                        if e.attr == "nmaindata":
+                            tot_ = Poly.const(0)
+                            for ch_ in basev.attrs["channels"]:
+                                tot_ = tot_ + to_poly(nb_[ch_])
+                            return tot_
+                        out_, at_ = {}, Poly.const(0)
+                        for ch_ in basev.attrs["channels"]:
+                            out_[ch_] = Obj("slice", {"start": at_, "stop": at_ + to_poly(nb_[ch_])})
+                            at_ = at_ + to_poly(nb_[ch_])
+                        return out_
                     return Obj(f"{basev.name}.{e.attr}")
                 if isinstance(basev, Poly) and e.attr in ("dtype", "device"):
                     return Obj(e.attr)
                 if isinstance(basev, Poly) and e.attr == "grad":
                     return fn("ACCUMULATED_GRAD_ATTRIBUTE", basev)  # tensor.grad: whatever backward() calls have added up so far
+            if e.attr == "ndim" and self.externals.get("__elementwise__"):
+                try:
+                    bv = self.eval(e.value)
+                except Undecided:
+                    bv = None
+                if isinstance(bv, list):
+                    from .listnp import _shape as _lshape
+                    return Poly.const(len(_lshape(bv)))
             if e.attr == "shape" and self.externals.get("__elementwise__"):
                 try:
                     bv = self.eval(e.value)
@@ -1934,6 +1956,14 @@ class Interp:
             if isinstance(o, Obj) and isinstance(nm, str):
                 if nm in o.attrs:
                     return o.attrs[nm]
+                if "__getattr__" in self.externals:
+                    try:
+                        return self.externals["__getattr__"](o, nm)  # properties / class attributes of a modelled object
+                    except NotHandled:
+                        pass
+                    except _PyRaise as pr_:
+                        if pr_.exc != "AttributeError" or len(args) <= 2:
+                            raise
                 if len(args) > 2:
                     return ev(args[2])
                 return Obj(f"{o.name}.{nm}")
